@@ -188,11 +188,13 @@ pub fn into_tokens(c: char, it: &mut Peekable<Chars>, state: &mut State) -> LexR
                     caret.offset_pos(1)
                 };
 
-                if !back_slash {
-                    if build_cur_expr > 0 {
-                        cur_expr.push(c);
-                    }
+                // Every character inside the braces belongs to the expression, also
+                // one that follows a backslash (an anonymous function).
+                if build_cur_expr > 0 {
+                    cur_expr.push(c);
+                }
 
+                if !back_slash {
                     if c == '{' {
                         if build_cur_expr == 0 {
                             cur_offset = caret;
